@@ -9,7 +9,7 @@ import witnesses as W
 from engine import Check, Violation
 from pool import Fault
 from props_struct import all_ops
-from edgegraph.structure import Vertex, Universe
+from edgegraph.structure import Vertex, Universe, DirectedEdge, UnDirectedEdge
 from edgegraph.traversal import helpers, breadthfirst, depthfirst
 
 
@@ -188,7 +188,79 @@ class C13(Check):
         stats.extra["fault_sweep_calls"] = getattr(self, "sweeps", 0)
         v = [Violation("oracle", m, sc) for (m, sc) in self._viol[:5]]
         self._viol = []
+        for m in self.many_reads_probe(stats) + self.unpicklable_attribute_probe(stats):
+            v.append(Violation("oracle", m, ["sweep:" + m[:60]]))
         return v
+
+    @staticmethod
+    def _public_state(objs):
+        """what the statement calls observable: the public attributes (names and values) and the ordered containers"""
+        out = []
+        for o in objs:
+            d = {k: x for k, x in vars(o).items() if not k.startswith("_")}
+            out.append((type(o).__name__, sorted(d), [repr(d[k]) for k in sorted(d)], sorted(k for k in dir(o) if not k.startswith("_")),
+                        [id(x) for x in getattr(o, "links", ())], [id(x) for x in getattr(o, "vertices", ())],
+                        [id(x) for x in o.universes]))
+        return out
+
+    def many_reads_probe(self, stats):
+        """read-only calls by the thousand (a sweep that passes a fresh lambda per call — every one a new memo key), caching
+        on and off: however MANY reads have happened, no object gains, loses or changes an attribute"""
+        from edgegraph.output import plaintext
+        out = []
+        for caching in (True, False):
+            Vertex.NEIGHBOR_CACHING = caching
+            try:
+                hub = Vertex(attributes={"name": "hub"})
+                leaves = [Vertex() for _ in range(6)]
+                u = Universe(vertices=[hub] + leaves)
+                es = [(DirectedEdge if i % 2 else UnDirectedEdge)(hub, x) for i, x in enumerate(leaves)]
+                objs = [hub, u] + leaves + es
+                before = self._public_state(objs)
+                for i in range(1300):
+                    helpers.neighbors(hub, 1, 1, lambda e, x, i=i: i % 7 != 0)
+                    if i % 4 == 0:
+                        breadthfirst.bft(u, hub, ff_via=lambda e, x, i=i: True)
+                    if i % 100 == 0:
+                        plaintext.basic_render(u)
+                        helpers.find_links(hub, leaves[0])
+                after = self._public_state(objs)
+                if after != before:
+                    diff = [(a[0], set(b[3]) ^ set(a[3]) or "values / containers") for a, b in zip(before, after) if a != b]
+                    out.append("after 1300 neighbors() calls with distinct filters (caching %s), some traversals and renders, the public "
+                               "state of the graph differs: %r" % ("on" if caching else "off", diff[:3]))
+            finally:
+                Vertex.NEIGHBOR_CACHING = False
+        stats.extra["many_reads_probe"] = "run"
+        return out
+
+    def unpicklable_attribute_probe(self, stats):
+        """a graph object carrying an attribute that cannot be pickled (a live generator kept as a cursor): nrpickler.dumps
+        raises or succeeds — either way the graph is as it was"""
+        from edgegraph.output import nrpickler
+        out = []
+        a, b = Vertex(attributes={"name": "a"}), Vertex()
+        u = Universe(vertices=[a, b])
+        e = DirectedEdge(a, b)
+        for owner in (a, e, u):
+            cursor = breadthfirst.ibft(u, a)
+            next(cursor)
+            owner.cursor = cursor
+            objs = [a, b, u, e]
+            before = self._public_state(objs)
+            for proto in (2, 4):
+                try:
+                    nrpickler.dumps([u, a, b, e], protocol=proto)
+                except Exception:  # noqa: BLE001   (TypeError: cannot pickle 'generator' object — fine)
+                    pass
+                if self._public_state(objs) != before:
+                    out.append("nrpickler.dumps (protocol %d) of a graph whose %s carries a generator-valued attribute changed "
+                               "the graph: public attributes now %r" % (proto, type(owner).__name__, sorted(k for k in vars(owner) if not k.startswith("_"))))
+                    break
+            if hasattr(owner, "cursor"):
+                del owner.cursor
+        stats.extra["unpicklable_attribute_probe"] = "run"
+        return out[:2]
 
     def fault_sweep(self, real, p, rng, script):
         from edgegraph.output import plaintext, plantuml, pyvis as egpyvis, nrpickler
